@@ -13,6 +13,8 @@ void gstuff_autorecv_setbuf_v1(struct gstuff_autorecv_v1 *autom,
 {
     sline_init(&autom->line, buf, len);
     gstuff_autorecv_reset_v1(autom);
+    // nothing received yet: wait for the start marker
+    autom->state = 3;
 }
 
 int gstuff_autorecv_newchar_v1(struct gstuff_autorecv_v1 *autom, char c)
@@ -21,6 +23,13 @@ int gstuff_autorecv_newchar_v1(struct gstuff_autorecv_v1 *autom, char c)
 
     switch (autom->state)
     {
+    case 3:
+        // Hunt (after setbuf, DATA_ERROR, OVERFLOW): bytes in front of the
+        // next marker belong to no frame and are skipped.
+        if (c != GSTUFF_START_V1)
+            goto __continue__;
+        IGRIS_FALLTHROUGH
+
     case 0:
         gstuff_autorecv_reset_v1(autom);
 
@@ -76,7 +85,9 @@ int gstuff_autorecv_newchar_v1(struct gstuff_autorecv_v1 *autom, char c)
         default:
             // Невалидный пакет.
             sts = GSTUFF_DATA_ERROR_V1;
-            goto __finish__;
+            if (c == GSTUFF_START_V1)
+                goto __finish__; // the marker itself opens the next frame
+            goto __hunt__;
         }
 
         goto __putchar__;
@@ -86,7 +97,7 @@ __putchar__:
     if (!sline_putchar(&autom->line, c))
     {
         sts = GSTUFF_OVERFLOW_V1;
-        goto __finish__;
+        goto __hunt__;
     }
     igris_strmcrc8(&autom->crc, c);
     autom->state = 1;
@@ -97,5 +108,10 @@ __continue__:
 
 __finish__:
     autom->state = 0;
+    return sts;
+
+__hunt__:
+    // the rest of a broken / over-long frame is not the beginning of a packet
+    autom->state = 3;
     return sts;
 }
